@@ -19,6 +19,42 @@ theorem Path.get?_eq_comps (p : Path) (i : Nat) : p.get? i = p.comps[i]? := by
   | 3 => rfl
   | n + 4 => simp [Path.get?, Path.comps]
 
+/-- `to_path` never returns a depth above 4 (repair cb1f5b25f) -/
+theorem toPath_depth_le4 (id : Ident) : id.toPath.depth ≤ 4 := by
+  unfold Ident.toPath
+  split
+  · exact Nat.min_le_right _ _
+  · exact Nat.zero_le _
+
+theorem clampId_WF (id : Ident) (h : IdWF id) : IdWF (clampId id) := by
+  obtain ⟨hl, hb⟩ := h
+  obtain ⟨d, a0, a1, a2, a3, b0, b1, b2, b3, e0, e1, e2, e3, f0, f1, f2, f3, rfl⟩ := list17 id hl
+  refine ⟨by simp [clampId], ?_⟩
+  intro b hm
+  simp only [clampId, List.headD_cons, List.drop_succ_cons, List.drop_zero, List.mem_cons] at hm
+  rcases hm with h | h
+  · omega
+  · exact hb b (List.mem_cons_of_mem _ (by simpa using h))
+
+theorem clampId_depthByte (id : Ident) : (clampId id).depthByte ≤ 4 := by
+  simp only [clampId, Ident.depthByte, List.headD_cons]; omega
+
+/-- an identifier whose depth byte is at most 4 is its own clamped form -/
+theorem clampId_of_le (id : Ident) (h : IdWF id) (hd : id.depthByte ≤ 4) : clampId id = id := by
+  obtain ⟨hl, _⟩ := h
+  obtain ⟨d, a0, a1, a2, a3, b0, b1, b2, b3, e0, e1, e2, e3, f0, f1, f2, f3, rfl⟩ := list17 id hl
+  simp only [Ident.depthByte, List.headD_cons] at hd
+  simp only [clampId, List.headD_cons, List.drop_succ_cons, List.drop_zero]
+  congr 1; omega
+
+/-- the depth byte beyond 4 is never looked at: `to_path` of an identifier and of its clamped form
+are the same path -/
+theorem toPath_clampId (id : Ident) (h : IdWF id) : (clampId id).toPath = id.toPath := by
+  obtain ⟨hl, _⟩ := h
+  obtain ⟨d, a0, a1, a2, a3, b0, b1, b2, b3, e0, e1, e2, e3, f0, f1, f2, f3, rfl⟩ := list17 id hl
+  simp only [clampId, List.headD_cons, List.drop_succ_cons, List.drop_zero, Ident.toPath]
+  congr 1; omega
+
 theorem words_length (id : Ident) (h : id.toPath.depth ≤ 4) : id.words.length = id.toPath.depth := by
   simp only [Ident.words, Path.comps, List.length_take, List.length_cons, List.length_nil]
   omega
@@ -42,13 +78,21 @@ theorem commit_none_inv {K : Type} {kd : KeyDeriv K} {amount : Nat} {id : Ident}
     exact ⟨k, rfl, h.symm⟩
 
 /-- `parseMessage (proofMessage id sw) = (id, sw)` for depth ≤ 4 (same as `Props.C20.parse_roundtrip`) -/
-theorem parseMessage_proofMessage (id : Ident) (sw : Switch) (h : IdWF id) (hd : id.toPath.depth ≤ 4) :
+theorem parseMessage_proofMessage (id : Ident) (sw : Switch) (h : IdWF id) (hd : id.depthByte ≤ 4) :
     parseMessage (proofMessage id sw) = some (id, sw) := by
   obtain ⟨hl, hb⟩ := h
   obtain ⟨d, a0, a1, a2, a3, b0, b1, b2, b3, e0, e1, e2, e3, f0, f1, f2, f3, rfl⟩ := list17 id hl
-  simp only [Ident.toPath] at hd
+  simp only [Ident.depthByte, List.headD_cons] at hd
   have hm : min d 4 % 256 = d := by omega
   simp [parseMessage, proofMessage, switch_roundtrip, Ident.fromSerializedPath, hm]
+
+/-- for **every** 17-byte identifier: `check_output` reads back the clamped identifier -/
+theorem parseMessage_proofMessage_clamp (id : Ident) (sw : Switch) (h : IdWF id) :
+    parseMessage (proofMessage id sw) = some (clampId id, sw) := by
+  obtain ⟨hl, hb⟩ := h
+  obtain ⟨d, a0, a1, a2, a3, b0, b1, b2, b3, e0, e1, e2, e3, f0, f1, f2, f3, rfl⟩ := list17 id hl
+  have hm : min d 4 % 256 = min d 4 := by omega
+  simp [parseMessage, proofMessage, switch_roundtrip, Ident.fromSerializedPath, hm, clampId]
 
 /-- the word the view key compares its `child_number` with -/
 theorem covers_child (vk : List ChildNumber) (id : Ident) (hd : id.toPath.depth ≤ 4)
@@ -70,7 +114,7 @@ theorem covers_child (vk : List ChildNumber) (id : Ident) (hd : id.toPath.depth 
 
 /-- the result of the view key's `check_output` on the honest message, exit by exit -/
 theorem viewCheckAt_honest {K : Type} (kd : KeyDeriv K) (vk : List ChildNumber) (c : Opening)
-    (amount : Nat) (id : Ident) (sw : Switch) (hid : IdWF id) (hd : id.toPath.depth ≤ 4) :
+    (amount : Nat) (id : Ident) (sw : Switch) (hid : IdWF id) (hd : id.depthByte ≤ 4) :
     viewCheckAt kd vk c amount (proofMessage id sw) =
       if vk.length > id.toPath.depth then .none
       else if (decide (vk.length > 0) && decide (id.toPath.depth > 0) &&
@@ -85,7 +129,7 @@ theorem viewCheckAt_honest {K : Type} (kd : KeyDeriv K) (vk : List ChildNumber) 
 
 /-- the same for switch `None`, the `match` reduced -/
 theorem viewCheckAt_honest_none {K : Type} (kd : KeyDeriv K) (vk : List ChildNumber) (c : Opening)
-    (amount : Nat) (id : Ident) (hid : IdWF id) (hd : id.toPath.depth ≤ 4) :
+    (amount : Nat) (id : Ident) (hid : IdWF id) (hd : id.depthByte ≤ 4) :
     viewCheckAt kd vk c amount (proofMessage id .none) =
       if vk.length > id.toPath.depth then .none
       else if (decide (vk.length > 0) && decide (id.toPath.depth > 0) &&
